@@ -121,7 +121,7 @@ func opUnmBytes(p []string) string {
 	if uerr != nil {
 		return "I=-/err O=ok"
 	}
-	return fmt.Sprintf("I=%s/ok O=ok", dumpValue(dst.Elem()))
+	return fmt.Sprintf("I=%s/ok O=%s", dumpValue(dst.Elem()), numOracle(p[0], data, dst.Elem()))
 }
 
 func genTags(tier string, seed uint64) {
@@ -133,7 +133,7 @@ func genTags(tier string, seed uint64) {
 	}
 	var ts []reflect.Type
 	for _, v := range []interface{}{Inner{}, (*Inner)(nil), (***Inner)(nil), []*Inner{}, WithPtr{}, Emb{}, HasShape{}, []Shape{}, TrNum(0), []TrNum{},
-		[2]TrBytes{}, map[string]*Rec{}, []interface{}{}, map[string]interface{}{}, Circle{}, map[TrNum]int{}} {
+		[2]TrBytes{}, map[string]*Rec{}, []interface{}{}, map[string]interface{}{}, Circle{}, map[TrNum]int{}, TrSq{}, []TrSq{}, map[string]TrSq{}} {
 		ts = append(ts, reflect.TypeOf(v))
 	}
 	ts = append(ts, reflect.TypeOf((*interface{})(nil)).Elem())
@@ -146,7 +146,7 @@ func genTags(tier string, seed uint64) {
 		}
 	}
 	// foreign CBOR: registered and unregistered tags on every item kind, into an untyped slot and into typed slots
-	items := []string{"00", "20", "40", "4101", "60", "6161", "623432", "80", "8101", "a0", "a1617801", "a26178016179616b", "f4", "f6", "fb3ff8000000000000", "9fff", "bfff", "420102"}
+	items := []string{"00", "20", "40", "4101", "60", "6161", "623432", "80", "8101", "a0", "a1617801", "a26178016179616b", "f4", "f6", "fb3ff8000000000000", "9fff", "bfff", "420102", "a1617360", "a161736161"}
 	tags := []uint64{0, 23, 24, 25, 100, 1100, 2100, 65536, 1 << 32}
 	ifaceT := tid(reflect.TypeOf((*interface{})(nil)).Elem())
 	for _, aid := range []int{0, 2, 3} {
@@ -158,6 +158,7 @@ func genTags(tier string, seed uint64) {
 				emit("unmbytes cbor %d %d %s", aid, tid(reflect.TypeOf(map[string]interface{}{})), "a1616b"+hx)
 				emit("unmbytes cbor %d %d %s", aid, tid(reflect.TypeOf(Inner{})), hx)
 				emit("unmbytes cbor %d %d %s", aid, tid(reflect.TypeOf(TrNum(0))), hx)
+				emit("unmbytes cbor %d %d %s", aid, tid(reflect.TypeOf(TrSq{})), hx)
 			}
 		}
 	}
